@@ -160,6 +160,8 @@ pub struct ConnDriver {
     pub panicked: bool,
     /// stop offering the rest of a chunk once a read reported a ParseError
     pub stop_on_parse_error: bool,
+    /// what is left of the last offer after the connection took what fitted (`conn more` takes from it)
+    pub rest: Vec<u8>,
     /// log of protocol ops of this case (for replays)
     pub log: Vec<String>,
 }
@@ -184,6 +186,7 @@ impl ConnDriver {
             first_error: None,
             panicked: false,
             stop_on_parse_error: false,
+            rest: vec![],
             log: vec![],
         };
         // every 64th connection is also stepped on the concrete-buffer model (lean/MicroHttp/Conn00.lean)
@@ -191,6 +194,28 @@ impl ConnDriver {
         rec.n_conn_new += 1;
         d.emit(rec, format!("l00 {}", if on { 1 } else { 0 }), "ok".into());
         d.emit(rec, format!("conn new {}", limit), "ok".into());
+        d
+    }
+
+    /// for replays: create the connection and emit only the given `conn new …` line
+    pub fn new_quiet(rec: &mut Rec, limit: usize, line: &str) -> Self {
+        let stream = Scripted::new();
+        let mut conn = HttpConnection::new(stream.clone());
+        conn.set_payload_max_size(limit);
+        let mut d = ConnDriver {
+            conn: Some(conn),
+            stream,
+            tokens: Tokens::new(),
+            limit,
+            delivered: vec![],
+            held: vec![],
+            first_error: None,
+            panicked: false,
+            stop_on_parse_error: false,
+            rest: vec![],
+            log: vec![],
+        };
+        d.emit(rec, line.to_string(), "ok".into());
         d
     }
 
@@ -217,6 +242,7 @@ impl ConnDriver {
             s.n_write = 0;
             s.n_read_calls = 0;
         }
+        Rec::about_to(&op);
         let conn = self.conn.as_mut().unwrap();
         let res = catch_unwind(AssertUnwindSafe(|| conn.try_read()));
         let (n_recv, n_write, n_rc, taken) = {
@@ -269,46 +295,47 @@ impl ConnDriver {
         (text, taken)
     }
 
+    /// One `try_read` with `bytes` (+ `nfds` fresh descriptors) on offer: op `conn recv <hex> <tokens>`.
+    /// What the connection did not take stays on offer for `recv_more`.
+    pub fn recv_once(&mut self, rec: &mut Rec, bytes: &[u8], nfds: usize) -> String {
+        let (toks, fds): (Vec<usize>, Vec<RawFd>) = (0..nfds).map(|_| self.tokens.fresh()).unzip();
+        let ts = if toks.is_empty() { "-".to_string() } else { toks.iter().map(|t| t.to_string()).collect::<Vec<_>>().join(",") };
+        let op = format!("conn recv {} {}", hx(bytes), ts);
+        self.stream.0.borrow_mut().reads.clear();
+        let (text, taken) = self.read_once(rec, RAct::Data(bytes.to_vec(), fds), op);
+        self.stream.0.borrow_mut().reads.clear();
+        self.rest = bytes[taken.min(bytes.len())..].to_vec();
+        text
+    }
+
+    /// One more `try_read` on the rest of the last offer: op `conn more`.
+    pub fn recv_more(&mut self, rec: &mut Rec) -> String {
+        let rest = self.rest.clone();
+        self.stream.0.borrow_mut().reads.clear();
+        let (text, taken) = self.read_once(rec, RAct::Data(rest.clone(), vec![]), "conn more".to_string());
+        self.stream.0.borrow_mut().reads.clear();
+        self.rest = rest[taken.min(rest.len())..].to_vec();
+        text
+    }
+
     /// Offer `bytes` (+ descriptor tokens) to the connection; calls `try_read` until all bytes
     /// were taken (the receive buffer may be smaller than the offer). Returns the result texts.
     pub fn recv(&mut self, rec: &mut Rec, bytes: &[u8], nfds: usize) -> Vec<String> {
         let mut results = vec![];
-        let mut rest: Vec<u8> = bytes.to_vec();
-        let mut first = true;
+        let mut before = bytes.len();
+        let mut text = self.recv_once(rec, bytes, nfds);
         loop {
-            let (toks, fds): (Vec<usize>, Vec<RawFd>) = if first {
-                (0..nfds).map(|_| self.tokens.fresh()).unzip()
-            } else {
-                (vec![], vec![])
-            };
-            let ts = if toks.is_empty() {
-                "-".to_string()
-            } else {
-                toks.iter().map(|t| t.to_string()).collect::<Vec<_>>().join(",")
-            };
-            // the first call carries the offer; later calls take the rest of it ("conn more")
-            let op = if first { format!("conn recv {} {}", hx(&rest), ts) } else { "conn more".to_string() };
-            // make sure nothing stale is queued
-            self.stream.0.borrow_mut().reads.clear();
-            let (text, taken) = self.read_once(rec, RAct::Data(rest.clone(), fds), op);
-            self.stream.0.borrow_mut().reads.clear();
             let is_parse_err = text.starts_with("parse(");
             results.push(text);
-            first = false;
-            if is_parse_err && self.stop_on_parse_error {
+            if self.conn.is_none() || self.rest.is_empty() || (is_parse_err && self.stop_on_parse_error) {
                 break;
             }
-            if self.conn.is_none() || rest.is_empty() {
-                break;
-            }
-            if taken == 0 {
+            if self.rest.len() == before {
                 // no progress (cannot happen for a non-empty offer unless the buffer is full): stop
                 break;
             }
-            rest.drain(..taken);
-            if rest.is_empty() {
-                break;
-            }
+            before = self.rest.len();
+            text = self.recv_more(rec);
         }
         results
     }
@@ -392,6 +419,7 @@ impl ConnDriver {
             s.n_read_calls = 0;
             s.last_accepted.clear();
         }
+        Rec::about_to(&op);
         let conn = self.conn.as_mut().unwrap();
         let res = catch_unwind(AssertUnwindSafe(|| conn.try_write()));
         let (n_recv, n_write, n_rc, acc) = {
